@@ -20,7 +20,7 @@ func Shrink(stmts []string, pred func([]string) bool) []string {
 	for _, ts := range parsed {
 		trees = append(trees, ts...)
 	}
-	budget := 3000
+	budget := 800
 	try := func(cand []node.Type) bool {
 		if budget <= 0 {
 			return false
